@@ -35,7 +35,7 @@ ASSUMPTIONS = [
 RULE = ('one evaluation = one (rule, arguments, premises) triple offered to eval; distinct = distinct accepted (rule, premises, clause) triples; '
         'non-trivial = accepted by the rule (then judged by the oracle)')
 EXPLANATION = 'accepted steps are translated to SMT: premises and not(clause) must be unsat; sat models are re-evaluated by an independent evaluator'
-BUDGET_S = {'quick': 240, 'thorough': 1700}
+BUDGET_S = {'quick': 240, 'thorough': 900}
 
 
 def bounds(tier):
